@@ -260,6 +260,13 @@ def mk_or(a, b):
     return ('or', a, b)
 
 
+def conjuncts(f):
+    """the conjuncts of a formula (the formula itself when it is not a conjunction)"""
+    if isinstance(f, tuple) and f and f[0] == 'and':
+        return conjuncts(f[1]) + conjuncts(f[2])
+    return [f]
+
+
 def conj(xs):
     r = TRUE
     for x in xs:
